@@ -290,8 +290,7 @@ func init() {
 				// data of unknown dynamic type: may be unsupported
 				x.note("binary.Write of data with unknown dynamic type")
 				e := st.fork()
-				n := st.fresh("wr", SSeqI)
-				st.assume(app("g_isbytes", n))
+				n := x.freshBytes(st, "wr")
 				w.set(st, sApp(SSeqI, w.get(st), n))
 				return []Outcome{{e, x.freshErr(e, "werr")}, {st, nilErr()}}
 			}
@@ -420,6 +419,11 @@ func init() {
 	for _, n := range []string{"log.Fatal", "log.Fatalf", "log.Fatalln", "os.Exit", "log.Panic", "log.Panicf", "log.Panicln"} {
 		ext(n, "terminates the process: the call site must be unreachable", fatal)
 	}
+	ext("(*golang.org/x/crypto/cryptobyte.Builder).BytesOrPanic", "Builder.BytesOrPanic: panics iff an earlier builder operation failed (the builder's error state is not modelled: the call site must be shown unreachable or is reported)",
+		func(x *Exec, st *State, fr *Frame, cc *ssa.CallCommon, args []Val, instr ssa.Instruction) []Outcome {
+			x.safe(st, fr, "unreachable", "false", instr)
+			return one(st, x.symResult(st, cc))
+		})
 	noop := func(x *Exec, st *State, fr *Frame, cc *ssa.CallCommon, args []Val, instr ssa.Instruction) []Outcome {
 		return one(st, x.symResult(st, cc))
 	}
@@ -547,8 +551,7 @@ func init() {
 			}
 			if rd == nil {
 				// unmodelled reader: unknown bytes arrive
-				n := st.fresh("readfrom", SSeqI)
-				st.assume(app("g_isbytes", n))
+				n := x.freshBytes(st, "readfrom")
 				w.set(st, sApp(SSeqI, w.get(st), n))
 				x.havocReachable(st, args[1])
 				return one(st, TupleV{TV{SInt, sLen(SSeqI, n)}, x.freshOrNilErr(st)})
@@ -607,8 +610,7 @@ func init() {
 					st.assume(tEq(by, app("g_pemdecode", in)))
 				}
 			}
-			rest := st.fresh("pemrest", SSeqI)
-			st.assume(app("g_isbytes", rest))
+			rest := x.freshBytes(st, "pemrest")
 			return []Outcome{{none, TupleV{PtrV{Nil: true, Elem: pt}, TV{SSeqI, in}}}, {st, TupleV{blk, TV{SSeqI, rest}}}}
 		})
 	ext("io.Copy", "io.Copy(dst, src): moves everything src yields into dst; a *bytes.Buffer destination never fails",
@@ -653,8 +655,7 @@ func init() {
 		func(x *Exec, st *State, fr *Frame, cc *ssa.CallCommon, args []Val, instr ssa.Instruction) []Outcome {
 			rd := x.readerOf(st, args[0])
 			if rd == nil {
-				n := st.fresh("readall", SSeqI)
-				st.assume(app("g_isbytes", n))
+				n := x.freshBytes(st, "readall")
 				x.havocReachable(st, args[0])
 				e := st.fork()
 				return []Outcome{{e, TupleV{TV{SSeqI, n}, x.freshErr(e, "rderr")}}, {st, TupleV{TV{SSeqI, n}, nilErr()}}}
